@@ -1703,7 +1703,7 @@ func runC12(c *Ctx) {
 	c10R8As(c, c.R.Rule("R8", "K3 (= C10.R8) force-stopped stays stopped: a run parked in the recovery back-off is not restarted once a stop marked it — the marker is read after the wait, every stop that kills the tomb sets it first, and the cleanup goroutine finalizes it as UserStopped", 13))
 	c12R9(c)
 	c12R12As(c, c.R.Rule("R12", "K3 force stop at any instant, also while the recovery restarts the pipeline: StartWithBackoff re-reads a stop marker of the run it belongs to after Start returned (both engines), so a stop accepted for the dead run between the pre-restart check and the publication of the new run is applied to the new run", 2))
-	c10R11As(c, c.R.Rule("R11", "K3 (= C10.R11) a force-stopped run stays stopped: the v1 stop marker set by an accepted (force) stop is never cleared by a later refused graceful stop — Stop clears it only when its own CompareAndSwap set it — and the cleanup goroutine recovers only an unmarked run", 3))
+	c10R11As(c, c.R.Rule("R11", "K3 (= C10.R11) a force-stopped run stays stopped: the v1 stop marker set by an accepted (force) stop is never cleared by a later refused graceful stop — in both engines the marker is cleared only behind a zero test of the stop-request counter, under the counter's lock — and the cleanup goroutine recovers only an unmarked run", 3))
 	c05SharedDest(c, c.R.Rule("R10", "K4/K3 (= C05.R4) v2 no ack of an unhandled record after a force stop: a worker enters a shared destination only under sharedMu and re-checks the poison flag after acquiring it — a worker queued behind the pass the force stop broke never takes that pass's leftover reply as the confirmation of its own record (and acks it to its source)", 6))
 	msgNotDropped(c, c.R.Rule("R7", "K4 (= C06.R10) no message forgotten (v1): a stream node that received a message sends it on, hands it over, acks it or nacks it on every path — also on the ctx.Done() arms a force stop takes — so the source's wait for open messages, and with it the run, always ends", 8))
 }
@@ -2039,7 +2039,7 @@ func c12R9(c *Ctx) {
 // drain it started ends with a transient error (a destination failing on the in-flight record): the v1 Stop marks the
 // run before it asks the nodes to stop, and the cleanup goroutine enters recovery only for an unmarked run.
 func c10R11(c *Ctx) {
-	c10R11As(c, c.R.Rule("R11", "K3 v1: a gracefully stopped run is not recovered: Service.Stop sets the run's intentionalStop marker before stopGraceful and takes it back only when this very call set it (CompareAndSwap), and in runPipeline's cleanup goroutine recoverPipeline is called only behind the !intentionalStop.Load() edge", 3))
+	c10R11As(c, c.R.Rule("R11", "K3 a gracefully stopped run is not recovered: Service.Stop sets the run's intentionalStop marker before stopGraceful; a refused stop takes back only its own request — in both engines the marker is cleared only behind a zero test of the stop-request counter, under the counter's lock — and in runPipeline's cleanup goroutine recoverPipeline is called only behind the !intentionalStop.Load() edge", 3))
 }
 
 func c10R11As(c *Ctx, r string) {
